@@ -51,6 +51,7 @@ pub fn run(rng: &mut Rng, n: usize, rep: &mut Report) {
         s.ins_fixed = 0; s.ins_rate = 0; s.grp_fixed = 0; s.grp_rate = 0; s.add_prog = false;
         check_seven(&s, ONE, ONE, rep);
     }
+    migrate_block(rng, (n / 40).max(6), rep, false);
     for i in 0..n {
         if i % 4 == 3 {
             let ir = gen_legacy(rng, true);
@@ -238,4 +239,105 @@ fn check_seven(ir: &Ir, u1: i128, u2: i128, rep: &mut Report) {
         }
     }
     rep.sample(format!("{} ur=({},{}) -> {:?},{:?}", desc, u1, u2, b1, b2));
+}
+
+
+/// the REAL (permissionless) `migrate_curve` through dispatch on banks that hold a legacy three-parameter curve: whatever it
+/// leaves behind must be a curve `validate()` accepts — usable, bounded, monotone (the predicates of `check_seven`) — and it
+/// must price like the curve it replaces (same rate, up to the u32 grid, at 0 %, at the kink, inside both segments, at 100 %)
+pub fn migrate_block(rng: &mut Rng, n: usize, rep: &mut Report, frozen_clause: bool) {
+    migrate_block_with(rng, n, rep, frozen_clause, &mut None)
+}
+
+/// family lines `ir.migrate <config 23> => ok <optimal plateau max zero hundred points x5 curve_type> | err 6015` from the real instruction
+pub fn migrate_lines(rng: &mut Rng, n: usize, out: &mut Vec<String>) {
+    let mut rep = Report::default();
+    let mut l = Some(Vec::new());
+    migrate_block_with(rng, n, &mut rep, false, &mut l);
+    out.extend(l.unwrap());
+}
+
+fn migrate_block_with(rng: &mut Rng, n: usize, rep: &mut Report, frozen_clause: bool, lines: &mut Option<Vec<String>>) {
+    use anchor_lang::{InstructionData, ToAccountMetas};
+    use marginfi::state::interest_rate::InterestRateConfigImpl;
+    let mut done = 0;
+    while done < n {
+        let s = crate::scen::Scen::build(rng);
+        for _ in 0..6 {
+            done += 1;
+            let h = s.banks[rng.below(s.banks.len() as u64) as usize];
+            let mut w = s.w.clone();
+            let directed = frozen_clause && done == 1;
+            let mut ir = if directed {
+                // the recorded witness of C12-F3 first (Mfi.Props.C12.frozenLegacy): optimal 50 %, plateau 100 %, max 1400 %
+                let mut x = gen_legacy(&mut Rng::new(1), true);
+                x.optimal = ONE / 2; x.plateau = ONE; x.max_ir = 14 * ONE;
+                x
+            } else if lines.is_some() && rng.chance(1, 4) { if rng.chance(1, 2) { gen_seven(rng, true) } else { gen_legacy(rng, false) } } else { gen_legacy(rng, true) };
+            // legal but unusual: rates above the u32 grid's 1000 % ceiling
+            if !directed && rng.chance(1, 8) { ir.max_ir = ONE * (10 + rng.below(30) as i128); }
+            if !directed && rng.chance(1, 16) { ir.plateau = ONE * 10 + rng.below(ONE as u64) as i128; ir.max_ir = ir.plateau + ONE; }
+            let mut bk = w.bank(&h.bank);
+            bk.config.interest_rate_config = ir.config();
+            let frozen = directed || rng.chance(1, 3);
+            if frozen { bk.flags |= marginfi_type_crate::constants::FREEZE_SETTINGS; }
+            w.set_bank(&h.bank, &bk);
+            if lines.is_none() && (ir.curve_type != 0 || bk.config.interest_rate_config.validate().is_err()) { continue; }
+            let group = w.group(&h.group);
+            let head = format!("ir.migrate {}", Ir::from_real(&bk.config.interest_rate_config, &group).line());
+            let before = bk.config.interest_rate_config;
+            let sample = |c: &marginfi_type_crate::types::InterestRateConfig, ur: i128| -> Option<i128> {
+                std::panic::catch_unwind(std::panic::AssertUnwindSafe(|| {
+                    c.create_interest_rate_calculator(&group).calc_interest_rate(I80F48::from_bits(ur)).map(|r| r.base_rate_apr.to_bits())
+                })).ok().flatten()
+            };
+            let ixn = solana_program::instruction::Instruction {
+                program_id: marginfi::ID,
+                accounts: marginfi::accounts::MigrateCurve { bank: h.bank }.to_account_metas(None),
+                data: marginfi::instruction::MigrateCurve {}.data(),
+            };
+            let r = w.exec(&ixn);
+            rep.bump("migrate_cases");
+            if let Some(l) = lines.as_mut() {
+                match &r {
+                    Ok(()) => {
+                        let a = w.bank(&h.bank).config.interest_rate_config;
+                        let bits = |v: marginfi_type_crate::types::WrappedI80F48| I80F48::from(v).to_bits();
+                        l.push(format!("{} => ok {} {} {} {} {} {} {}", head, bits(a.optimal_utilization_rate), bits(a.plateau_interest_rate), bits(a.max_interest_rate),
+                            a.zero_util_rate, a.hundred_util_rate, a.points.iter().map(|p| format!("{} {}", p.util, p.rate)).collect::<Vec<_>>().join(" "), a.curve_type));
+                    }
+                    Err(crate::world::ExecErr::Custom(c)) => l.push(format!("{} => err {}", head, c)),
+                    Err(crate::world::ExecErr::Panic) => l.push(format!("{} => panic", head)),
+                    Err(_) => {}
+                }
+                continue;
+            }
+            if r.is_err() { rep.bump("migrate_refused"); continue; }
+            rep.bump("migrate_ok");
+            let after = w.bank(&h.bank).config.interest_rate_config;
+            let desc = format!("legacy optimal {} plateau {} max {} -> zero {} hundred {} points {:?}{}", ir.optimal, ir.plateau, ir.max_ir, after.zero_util_rate, after.hundred_util_rate,
+                after.points.iter().map(|p| (p.util, p.rate)).collect::<Vec<_>>(), if frozen { " [settings frozen]" } else { "" });
+            if !frozen_clause {
+                if after.validate().is_err() {
+                    rep.fail(format!("migrate_curve left a curve that validate() rejects: {}", desc));
+                    continue;
+                }
+                let new_ir = Ir::from_real(&after, &group);
+                check_seven(&new_ir, ir.optimal / 2, (ir.optimal + ONE) / 2, rep);
+            }
+            // same prices as before, up to the grid: 1000 % / 2^32 per rate and 1 / 2^32 of utilisation on the steeper slope
+            let slope = (ir.plateau * ONE / ir.optimal.max(1)).max((ir.max_ir - ir.plateau) * ONE / (ONE - ir.optimal).max(1));
+            let tol = (10 * ONE >> 31) + (slope >> 31) + 4;
+            for ur in [0, ir.optimal / 2, ir.optimal, (ir.optimal + ONE) / 2, ONE] {
+                if let (Some(a), Some(b)) = (sample(&before, ur), sample(&after, ur)) {
+                    if (a - b).abs() > tol {
+                        rep.bump("migrate_changes_rate");
+                        if frozen && frozen_clause {
+                            rep.fail(format!("migrate-curve-changes-frozen-rate: the permissionless migrate_curve changed the base rate of a bank whose settings are FROZEN at utilisation {} from {} to {}: {}", ur, a, b, desc));
+                        }
+                    }
+                }
+            }
+        }
+    }
 }
